@@ -39,19 +39,22 @@ def gen(rng):
         devs.append(("lcdI2c", "setupTop", f"li{n}", f"LCD(i2c_addr={rng.choice(['0x27', '0x3F', '0', '0x00', '39', '0x20'])}, cols={rng.choice([16, 20])}, rows={rng.choice([2, 4])})"))
     for _ in range(rng.randint(0, 3)):
         n += 1
-        k = rng.choice(["Led(13)", "Buzzer(8)", "DCMotor(2, 3, 4)", "Potentiometer(\"A0\")", "SerialMonitor(9600)"])
+        k = rng.choice(["Led(13)", "Buzzer(8)", "DCMotor(2, 3, 4)", "Potentiometer(\"A0\")", "SerialMonitor(9600)", "Button(7)", "Button(6)", "Ultrasonic(4, 5)"])
         devs.append(("other", rng.choice(["setupTop", "loopTop"]) if not k.startswith("Serial") else "setupTop", f"o{n}", k))
     rng.shuffle(devs)
     return devs
 
 
 USE = {"servo": "{n}.write(90)", "lcdPar": "{n}.line(0, \"hi\")", "lcdI2c": "{n}.line(0, \"hi\")"}
+# housekeeping the transpiler injects at the head of the loop body (button polls, animation ticks) must not hide loop-declared devices
+ANIM = "{n}.animate(\"scroll\", 0, \"hello\", speed_ms=100, loop=True)"
 
 
 def build(devs, with_loop):
     lines = [HEAD.rstrip("\n")]
     lines += [f"{n} = {ctor}" for k, pos, n, ctor in devs if pos == "setupTop"]
     lines += [USE[k].format(n=n) for k, pos, n, ctor in devs if pos == "setupTop" and k in USE]
+    lines += [ANIM.format(n=n) for k, pos, n, ctor in devs if pos == "setupTop" and k in ("lcdPar", "lcdI2c") and (len(n) + len(ctor)) % 3 == 0]
     loop_devs = [d for d in devs if d[1] == "loopTop"]
     if with_loop or loop_devs:
         lines.append("while True:")
@@ -74,7 +77,9 @@ def run(ctx: Ctx) -> int:
     emitter = importlib.import_module("Reduino.transpile.emitter")
     pio = importlib.import_module("Reduino.toolchain.pio")
     rng = ctx.rng
-    cases = [[], [("servo", "loopTop", "sv1", "Servo(9)")], [("lcdI2c", "setupTop", "li1", "LCD(i2c_addr=0, cols=16, rows=2)")],
+    cases = [[], [("servo", "loopTop", "sv1", "Servo(9)")], [("other", "setupTop", "o1", "Button(7)"), ("servo", "loopTop", "sv2", "Servo(9)")],
+             [("servo", "loopTop", "sv2", "Servo(9)"), ("other", "loopTop", "o1", "Button(7)")],
+             [("lcdPar", "setupTop", "lpan", "LCD(rs=12, en=11, d4=5, d5=4, d6=3, d7=2)"), ("servo", "loopTop", "sv3", "Servo(10)"), ("servo", "loopTop", "sv4", "Servo(9)")], [("lcdI2c", "setupTop", "li1", "LCD(i2c_addr=0, cols=16, rows=2)")],
              [("lcdPar", "setupTop", "lp1", "LCD(rs=12, en=11, d4=5, d5=4, d6=3, d7=2)"), ("lcdI2c", "setupTop", "li2", "LCD(i2c_addr=0x27)")]]
     cases += [gen(rng) for _ in range(ctx.n(240, 1500))]
     srcs = [build(d, rng.random() < 0.5) for d in cases]
